@@ -34,13 +34,13 @@ class TrioRunner(BaseRunner):
         try:
             self._trio_token.run_sync_soon(self._submit_payload, payload)
         except trio.RunFinishedError:
-            self._logger.warning(f"discarding payload {payload} during shutdown")
+            self._logger.warning("discarding payload %s during shutdown", payload)
 
     def _submit_payload(self, payload: Callable[[], Awaitable]):
         try:
             self._submit_tasks.send_nowait(payload)
         except (trio.ClosedResourceError, trio.BrokenResourceError):
-            self._logger.warning(f"discarding payload {payload} during shutdown")
+            self._logger.warning("discarding payload %s during shutdown", payload)
 
     def run_payload(self, payload: Callable[[], Coroutine]):
         assert self._trio_token is not None and self._submit_tasks is not None
